@@ -40,7 +40,7 @@ Proof. exact load_agree. Qed.
    PARTIAL, exactly: (a) the ROOT element's attributes are validated against the placeholder version Autosar_4_0_1
    (the file version is read from them), so attrs_valid is stated for v401 there; (b) for plain (CString) values StrictValid
    states max_length of the unescaped text; entity syntax is a property of the bytes before unescaping and is not in
-   StrictValid - it is stated separately, exactly: C08_entities (the signed references "&#x+41;" / "&#+65;" found here are repaired: fix 68ba067, Examples fixed_entity_sign_hex / _dec);
+   StrictValid - it is stated separately, exactly: C08_entities (the signed references "&#x+41;" / "&#+65;" found here are repaired: fix 5f62213, Examples fixed_entity_sign_hex / _dec);
    (c) StrictValid does not say that an element which must carry a value has a text item — that fails, see
    C08_value_required_refuted (known finding empty-value-never-checked); at most one is C08_single_value. *)
 Theorem C08_accepted_is_valid_partial :
@@ -73,7 +73,7 @@ Theorem C08_no_trailing_data :
 Proof. exact load_strict_consumed. Qed.
 
 (* [U] a character data element (content mode Characters) holds at most one value, in every node of a loaded tree, in
-   both modes (fix 3656060: text continuing after a comment / processing instruction used to become a second value) *)
+   both modes (fix 00b10f0: text continuing after a comment / processing instruction used to become a second value) *)
 Theorem C08_single_value :
   forall (T : tables) (tab_el tab_at tab_en : nametab) (check_fn : N -> list N -> res bool)
          (float_parse : list N -> option N) (strict : bool) (bs : list N) (t : etree) (st : pstate),
@@ -140,7 +140,7 @@ Proof. exact accepted_valid_unfold. Qed.
 
 (* The remaining hole of strict validation, witnessed on the REAL tables (LOAD = load over Spec/SpecReal.v and the real
    name tables; Xml/ParserExamples.v) and replayed on the implementation (strict load_buffer returns Ok).
-   Repaired since: signed character references (68ba067), second text run (3656060) — Examples fixed_* there. *)
+   Repaired since: signed character references (5f62213), second text run (00b10f0) — Examples fixed_* there. *)
 (* <SHORT-NAME/> : an element that must carry a value has no text item and is never value-checked *)
 Theorem C08_value_required_refuted :
   exists bs, match LOAD true bs with
